@@ -578,6 +578,12 @@ def main():
         nat.append('        ("nintro_%s", (|s: &mut crate::src::EnumSrc| crate::native_misc::intro_family::<crate::family_gen::%s, _>(s)) as fn(&mut crate::src::EnumSrc)),' % (n, n))
     nat += ["    ]", "}"]
     nat += ["#[cfg(feature = \"xnative\")]", "pub fn native_family_registry_x() -> Vec<(&'static str, fn(&mut crate::src::EnumSrc))> {", "    vec!["] + xnat + ["    ]", "}"]
+    # native-only: an enum that grows from 255 to exactly 256 variants by appending a versioned variant (C03)
+    e = ["// GENERATED by /verif/gen/gen_family.py -- native-only definitions (not compiled under Kani)",
+         "use savefile_derive::Savefile;",
+         "#[derive(Savefile, Debug, Clone, Copy, PartialEq)]", "pub enum E255Old {"] + ["    V%d," % i for i in range(255)] + ["}",
+         "#[derive(Savefile, Debug, Clone, Copy, PartialEq)]", "pub enum E256New {"] + ["    V%d," % i for i in range(255)] + ['    #[savefile_versions = "1.."] V255,', "}"]
+    open(os.path.join(OUT, "native_enum256.rs"), "w").write("\n".join(e) + "\n")
     open(os.path.join(OUT, "native_family.rs"), "w").write("\n".join(nat) + "\n")
     open(os.path.join(OUT, "family_gen.rs"), "w").write("\n".join(out))
     reg.append("}")
